@@ -320,13 +320,35 @@ func (c *ctx) replay(lines []string) {
 			}
 		case "xml":
 			b, _ := common.UnHex(f[3])
-			if e := find(strings.ReplaceAll(f[2], "_", " ")); e != nil {
+			if f[2] == "form.Data" {
+				fe := theFormEntry()
+				c.xmlCase(&fe, b, "replay")
+			} else if e := find(strings.ReplaceAll(f[2], "_", " ")); e != nil {
 				c.xmlCase(e, b, "replay")
 			} else if e := find(f[2]); e != nil {
 				c.xmlCase(e, b, "replay")
 			}
 		}
 	}
+}
+
+// theFormEntry: form.Data as a decoding type (arbitrary / mutated documents, second generation).
+func theFormEntry() entry {
+	return entry{name: "form.Data", dec: true,
+		unmarshal: func(b []byte) (string, error) {
+			var d form.Data
+			return safeUnmarshal(b, &d)
+		},
+		seeds: func(sub uint64) [][]byte {
+			g := &gen{r: common.NewRand(sub)}
+			fd := genFormDesc(g, true)
+			b, err := xml.Marshal(fd.build())
+			if err != nil {
+				return nil
+			}
+			return [][]byte{b}
+		},
+		decoded: formDecoded}
 }
 
 // Run is the C19 runner.
@@ -433,20 +455,7 @@ func Run(r *common.Run) error {
 	}
 	// arbitrary XML into every unmarshaller
 	nXML := r.Pick(150, 2500)
-	formEntry := entry{name: "form.Data", dec: true,
-		unmarshal: func(b []byte) (string, error) {
-			var d form.Data
-			return safeUnmarshal(b, &d)
-		},
-		seeds: func(sub uint64) [][]byte {
-			g := &gen{r: common.NewRand(sub)}
-			fd := genFormDesc(g, true)
-			b, err := xml.Marshal(fd.build())
-			if err != nil {
-				return nil
-			}
-			return [][]byte{b}
-		}}
+	formEntry := theFormEntry()
 	r.Mark("case xml")
 	c.fuzzType(&formEntry, c.rnd.Fork(), nXML*3)
 	for i := range registry {
